@@ -64,12 +64,61 @@ def reads_of(ch, lazy, n):
         put(".data", lambda: ch.data)
     else:
         def chunks():
-            return [c[:] for c in ch.data_chunks()]
+            return [c[:] for c in list(ch.data_chunks())]
         try:
             for k, arr in enumerate(chunks()):
                 out.append(("data_chunks()[%d][:]" % k, arr))
         except Exception as ex:  # noqa
             out.append(("data_chunks()", ex))
+    return out
+
+
+def empty_chunk_pass(ctx, model, nptdms, stats):
+    """Chunks that exist but hold no value of a channel (index declares 0 values beside a sibling with data; truncated final chunk):
+    what the chunk iterators hand out for that channel must still be an array of channel.dtype. Every readable type."""
+    import gen_files as gf
+    rnd = ctx.rnd
+    out = []
+    stats["empty_chunk_files"] = 0
+    for ty in ALL_TYPES:
+        sib = dict(path=gf.path_of("g", "sib"), idx=("F", 3, 2, 0), props=[])
+        z = dict(path=gf.path_of("g", "z"), idx=("F", ty, 0, 0), props=[])
+        z2 = dict(path=gf.path_of("g", "z"), idx=("F", ty, 2, 8 + 3 if ty == 0x20 else 0), props=[])
+        v2 = [b"ab", b"c"] if ty == 0x20 else [rand_value(rnd, ty) for _ in range(2)]
+        base = dict(interleaved=False, big=rnd.random() < 0.3, rawFlag=True, daqmxFlag=False, lengthUnknown=False, version=4713, padding=0)
+        order = [z, sib] if rnd.random() < 0.5 else [sib, z]
+        i32 = lambda: [struct.pack("<i", rnd.randint(-9, 9)) for _ in range(2)]
+        seg1 = dict(base, hasMeta=True, newList=True, objs=order, chunks=[[[] if o is z else i32() for o in order] for _ in range(2)])
+        order2 = [z2 if o is z else o for o in order]
+        seg2 = dict(base, hasMeta=True, newList=True, objs=order2, chunks=[[v2 if o is z2 else i32() for o in order2]])
+        e = model.ask(gf.to_line([seg1, seg2]))
+        if not e.get("ok") or not e.get("wf"):
+            ctx.notes.append("empty-chunk template for type %#x is not a well-formed encoding" % ty)
+            continue
+        data = bytes.fromhex(e["file"])
+        stats["empty_chunk_files"] += 1
+        for cut in (None, len(data) - 3):
+            d = data if cut is None else data[:cut]
+            with nptdms.TdmsFile.open(io.BytesIO(d)) as f:
+                ch = f["g"]["z"]
+                declared = ch.dtype
+                got = []
+                try:
+                    for k, chunk in enumerate(list(f.data_chunks())):
+                        got.append(("TdmsFile.data_chunks()[%d]['g']['z'][:]" % k, chunk["g"]["z"][:]))
+                    for k, c in enumerate(list(ch.data_chunks())):
+                        got.append(("channel.data_chunks()[%d][:]" % k, c[:]))
+                except Exception as ex:  # noqa
+                    out.append(Violation("chunk iteration over a file with an empty chunk raised %s: %s (type %#x)" % (type(ex).__name__, str(ex)[:100], ty), dict(file=d.hex(), raw_type=ty)))
+                    continue
+                for label, arr in got:
+                    stats["reads"] += 1
+                    if not isinstance(arr, np.ndarray):
+                        out.append(Violation("%s returned a %s, not an array (type %#x, %d values)" % (label, type(arr).__name__, ty, len(arr)), dict(file=d.hex(), raw_type=ty, read=label)))
+                    elif not same(arr.dtype, declared):
+                        out.append(Violation("%s has dtype %s but channel.dtype is %s (type %#x, %d values)" % (label, arr.dtype, declared, ty, len(arr)), dict(file=d.hex(), raw_type=ty, read=label)))
+        if len(out) >= 3:
+            break
     return out
 
 
@@ -191,6 +240,8 @@ def run(ctx):
             break
         if ctx.tier == "quick" and ctx.elapsed() > 45:
             break
+    if len(violations) < 5:
+        violations += empty_chunk_pass(ctx, model, nptdms, stats)
     return dict(violations=violations[:5], disagreements=disagreements[:20],
                 coverage=dict(evaluations=stats["reads"], distinct_nontrivial=len(combos),
                               rule="every readable raw type (17) x {no scaling, Linear, Polynomial, Table, Add, Subtract, RTD, Strain, Thermistor, Thermocouple, AdvancedAPI, "
